@@ -515,6 +515,7 @@ def patched(modules, np_proxy=None, extra=None):
     """
     np_proxy = np_proxy or SymNP()
     saved = []
+    _ACTIVE.append(saved)
     try:
         for m in modules:
             if hasattr(m, 'np'):
@@ -525,5 +526,26 @@ def patched(modules, np_proxy=None, extra=None):
             setattr(m, name, val)
         yield np_proxy
     finally:
+        _ACTIVE.remove(saved)
         for m, name, val in reversed(saved):
             setattr(m, name, val)
+
+
+_ACTIVE = []
+
+
+@contextlib.contextmanager
+def unpatched():
+    """Temporarily give every patched module its real NumPy back (construction of concrete fixtures
+    inside a symbolic run: cached fixtures must hold plain float arrays, also for the replay)."""
+    cur = []
+    for saved in _ACTIVE:
+        for m, name, val in saved:
+            if name == 'np':
+                cur.append((m, m.np))
+                m.np = val
+    try:
+        yield
+    finally:
+        for m, val in cur:
+            m.np = val
